@@ -144,6 +144,8 @@ def stepOp (s : St) (f : List String) : Step :=
   | some "mark" => ⟨s, ["ok"]⟩
   | some "snap" => ⟨s, ["ok"]⟩
   | some "usefile" => ⟨{ s with txs := [], handles := [] }, ["ok"]⟩
+  | some "pretrees" => ⟨s, []⟩
+  | some "notes" => ⟨s, []⟩
   | some "flstate" => ⟨s, []⟩
   | some "readers" => ⟨s, []⟩
   | some "tree" => ⟨s, []⟩
